@@ -29,6 +29,10 @@ _QUERY_RE = re.compile(
 )
 
 
+class HarnessTimeout(TimeoutError):
+    """The harness itself (not the library) failed to make progress: inconclusive."""
+
+
 class Persona:
     """What the scripted terminal answers.  ``None`` = query unsupported (no reply)."""
 
@@ -183,10 +187,23 @@ class PtyEnv:
 
     # ------------------------------------------------------------------ terminal side
     def _drain(self):
+        """Terminal thread: never blocks for good -- the master is non-blocking, reads are
+        multiplexed with select and a reply that cannot be written at once is dropped."""
+        import select
+
         master = self.master
+        os.set_blocking(master, False)
         while not self._stop:
             try:
+                r, _, _ = select.select([master], [], [], 0.25)
+            except (OSError, ValueError):
+                break
+            if not r:
+                continue
+            try:
                 data = os.read(master, 1 << 16)
+            except BlockingIOError:
+                continue
             except OSError:
                 break
             if not data:
@@ -264,12 +281,13 @@ class PtyEnv:
         if d:
             time.sleep(d)
         # a reply must never block the terminal thread (nobody may be reading input)
-        import select
-
-        if select.select([], [self.master], [], 0.5)[1]:
-            os.write(self.master, rep)
-            self.replies_sent += 1
-        else:
+        try:
+            n = os.write(self.master, rep)
+            if n == len(rep):
+                self.replies_sent += 1
+            else:
+                self.replies_dropped = getattr(self, "replies_dropped", 0) + 1
+        except BlockingIOError:
             self.replies_dropped = getattr(self, "replies_dropped", 0) + 1
 
     def flush_input(self):
@@ -278,10 +296,13 @@ class PtyEnv:
 
     def type_input(self, data: bytes):
         """Simulates the user typing / the terminal sending unsolicited input."""
-        os.write(self.master, data)
+        try:
+            os.write(self.master, data)
+        except BlockingIOError:
+            pass
 
     # ------------------------------------------------------------------ subject side
-    def sync(self, timeout=20.0):
+    def sync(self, timeout=60.0):
         """Waits until everything written so far has been seen by the terminal."""
         try:
             sys.stdout.flush()
@@ -294,7 +315,20 @@ class PtyEnv:
         with self._cv:
             ok = self._cv.wait_for(lambda: self._sync_seen >= n, timeout)
         if not ok:
-            raise TimeoutError("terminal thread did not see the sync marker")
+            import traceback
+
+            fr = sys._current_frames().get(self.thread.ident)
+            where = "".join(traceback.format_stack(fr)[-4:]) if fr else "no frame"
+            raise HarnessTimeout(
+                "terminal thread did not see the sync marker %d (seen %d, alive %s, scan %d bytes %r, cap %d, pending input %s)\n%s"
+                % (n, self._sync_seen, self.thread.is_alive(), len(self._scan), bytes(self._scan[:60]), len(self.cap), self._pending_safe(), where)
+            )
+
+    def _pending_safe(self):
+        try:
+            return self.pending_input()
+        except Exception as e:
+            return repr(e)
 
     def take(self):
         """Returns and clears the bytes written to the terminal so far."""
